@@ -21,6 +21,18 @@ def fresh_name(prefix):
     return "%s!%d" % (prefix, next(_counter))
 
 
+def counter_value():
+    global _counter
+    v = next(_counter)
+    _counter = itertools.count(v)
+    return v
+
+
+def set_counter(v):
+    global _counter
+    _counter = itertools.count(v)
+
+
 def fresh_int(prefix='k'):
     return z3.Int(fresh_name(prefix))
 
@@ -455,7 +467,8 @@ class SumRegistry(object):
         a = self.atoms.get(key)
         if a is None:
             sort_real = z3.is_real(cbody)
-            name = "S[%d]" % len(self.atoms)
+            import hashlib
+            name = "S[%s]" % hashlib.md5(('%s|%s' % key).encode()).hexdigest()[:10]     # content-addressed: independent of history
             const = z3.Real(name) if sort_real else z3.Int(name)
             nterm = n if isinstance(n, z3.ExprRef) else z3.IntVal(n)
             a = SumAtom(const, nterm, J, cbody)
@@ -511,7 +524,8 @@ class ExtremumRegistry(object):
         key = (which, n.sexpr(), cbody.sexpr())
         a = self.atoms.get(key)
         if a is None:
-            name = "%s[%d]" % (which.upper(), len(self.atoms))
+            import hashlib
+            name = "%s[%s]" % (which.upper(), hashlib.md5(('%s|%s|%s' % key).encode()).hexdigest()[:10])
             if which == 'any':
                 const = z3.Bool(name)
             else:
